@@ -318,6 +318,22 @@ def c17(rng, tier):
                 f = None if w.data.shape == want.shape and numpy.array_equal(w.data, want) else 'as_utpm of a container mixing polynomials and plain numbers: element-wise read-back differs (a number must become the constant polynomial)'
                 yield case2, f
             except Exception as e: yield case2, 'raises %s: %s' % (type(e).__name__, str(e)[:100])
+    # ---- ndarray2utpm (containers of any rank) and utpm2dirs
+    for (D, P) in ((1, 1), (2, 2)):
+        for shp in ((3,), (2, 2), (2, 3), (2, 1, 2)):
+            ref = numpy.array([native.rnd(rng) for _ in range(D * P * int(numpy.prod(shp)))]).reshape((D, P) + shp)
+            cont = numpy.empty(shp, dtype=object)
+            for idx in numpy.ndindex(*shp): cont[idx] = U(ref[(slice(None), slice(None)) + idx].copy())
+            case = {'conv': 'ndarray2utpm', 'shape': list(shp), 'D': D, 'P': P}
+            try:
+                w = ut.ndarray2utpm(cont)
+                yield case, (None if w.data.shape == ref.shape and numpy.array_equal(w.data, ref) else 'ndarray2utpm(container)[index] differs from the element it was built from')
+            except Exception as e: yield case, 'raises %s: %s' % (type(e).__name__, str(e)[:100])
+            case = {'conv': 'utpm2dirs', 'shape': list(shp), 'D': D, 'P': P}
+            try:
+                V = ut.utpm2dirs(U(ref.copy())); ok = V.shape == shp + (P, D) and all(numpy.array_equal(V[..., p_, d_], ref[d_, p_]) for p_ in range(P) for d_ in range(D))
+                yield case, (None if ok else 'utpm2dirs(u)[..., p, d] != u.data[d, p]')
+            except Exception as e: yield case, 'raises %s: %s' % (type(e).__name__, str(e)[:100])
     # ---- blocks of matrix polynomials <-> one matrix polynomial
     for (D, P) in ((1, 1), (3, 2)):
         for (rows, cols) in (((2, 1), (2, 3)), ((1,), (2, 2)), ((2, 2), (1,))):
